@@ -331,12 +331,42 @@ theorem nested_key (D1 D2 n p2 p1 p : Str) (h1 : isRooted D1 = true) (h2 : isRoo
   rw [this, List.append_assoc]
 
 /-- files report their names relative to the root: a source name of the form
-    `Clean(D)` (without trailing separator) followed by `rel` is reported as `rel` -/
-theorem bp_file_name (D rel : Str) : bpFileName D (trimSuffixSep (clean D) ++ rel) = rel := by
+    `Clean(D)` (without trailing separator) followed by `rel` is reported as `rel` (D absolute) -/
+theorem bp_file_name (D rel : Str) (hD : isRooted D = true) : bpFileName D (trimSuffixSep (clean D) ++ rel) = rel := by
+  have hr : isRooted (clean D) = true := by rw [clean_rooted D hD]; exact isRooted_render _
+  have happ : ∀ a b : Str, a ≠ [] → isRooted (a ++ b) = true → isRooted a = true := by
+    intro a b ha h
+    cases a with
+    | nil => exact absurd rfl ha
+    | cons x t => simpa [isRooted] using h
+  have hnd : trimSuffixSep (clean D) ≠ dot := by
+    intro e
+    rcases trimSuffixSep_spec (clean D) with h1 | h1
+    · rw [← h1, e] at hr; exact absurd hr (by decide)
+    · rw [h1, e] at hr; exact absurd hr (by decide)
+  have hroot : trimSuffixSep (clean D) ≠ [] → isRooted (trimSuffixSep (clean D)) = true := by
+    intro hne
+    rcases trimSuffixSep_spec (clean D) with h1 | h1
+    · rw [h1]; exact hr
+    · rw [h1] at hr; exact happ _ _ hne hr
   unfold bpFileName trimPrefix
+  simp only [hnd, if_false]
+  have hb : (if trimSuffixSep (clean D) ≠ [] ∧ ¬ isRooted (trimSuffixSep (clean D)) = true ∧ isRooted (trimSuffixSep (clean D) ++ rel) = true
+      then sep :: trimSuffixSep (clean D) else trimSuffixSep (clean D)) = trimSuffixSep (clean D) := by
+    by_cases hne : trimSuffixSep (clean D) = []
+    · simp [hne]
+    · simp [hroot hne]
+  rw [hb]
   have : (trimSuffixSep (clean D)).isPrefixOf (trimSuffixSep (clean D) ++ rel) = true :=
     List.isPrefixOf_iff_prefix.mpr (List.prefix_append _ _)
   simp [this]
+
+/-- below the root "." (the working directory) the source's names carry no prefix: a relative name `rel`
+    of the source is reported with the separator in front, like below any other root -/
+theorem bp_file_name_dot (D rel : Str) (hd : clean D = dot) (hr : rel ≠ dot) (hrel : isRooted rel = false) :
+    bpFileName D rel = sep :: rel := by
+  have : trimSuffixSep dot = dot := by decide
+  unfold bpFileName; simp [hd, hr, hrel, this]
 
 /-! ### concrete instances (non-vacuity) and the boundary of the stacking law -/
 
@@ -346,6 +376,10 @@ example : depthOK (split (s "a/./b/../c")) 0 = true := by decide
 example : realPath (s "/base/") (s "a/./b/../c") = some (s "/base/a/c") := by decide
 example : bpFileName (s "/base/") (s "/base/a/c") = s "/a/c" := by decide
 example : bpFileName (s "/") (s "/a/c") = s "/a/c" := by decide
+example : bpFileName (s ".") (s ".hidden") = s "/.hidden" ∧ bpFileName (s "") (s "a/c") = s "/a/c" ∧
+    bpFileName (s "sub") (s "/sub/d/f") = s "/d/f" ∧ bpFileName (s "rel") (s "rel/d/f") = s "/d/f" ∧ bpFileName (s ".") (s "/d/f") = s "/d/f" := by decide
+example : realPath (s ".") (s "a/../b") = some (s "b") ∧ realPath (s ".") (s "../b") = none ∧ realPath (s "..") (s "../b") = none ∧
+    realPath (s "..") (s "b") = some (s "../b") ∧ realPath (s "rel") (s "../rel/x") = some (s "rel/x") := by decide
 /-- nested roots: the name finally seen is the joined one -/
 example : (realPath (s "/a") (s "x/y")).bind (realPath (s "/r")) = realPath (s "/r/a") (s "x/y") := by decide
 /-- a name that leaves its start and re-enters does *not* stay inside (`depthOK` fails), and there
